@@ -22,7 +22,7 @@ macro_rules! c01_same {
         $r.form("strict", || val(a.strict_add(b)));
         $r.form("op", || val(a + b));
         if gen::add_fits(&a.enc(), &b.enc(), wsigned(&a)) {
-            $r.form("unchecked", || val(unsafe { a.unchecked_add(b) }));
+            $r.form_unsafe("unchecked", || val(unsafe { a.unchecked_add(b) }));
         }
         $r.fam("sub", vec![int(&a), int(&b)]);
         $r.form("overflowing", || pairf(a.overflowing_sub(b)));
@@ -32,7 +32,7 @@ macro_rules! c01_same {
         $r.form("strict", || val(a.strict_sub(b)));
         $r.form("op", || val(a - b));
         if gen::sub_fits(&a.enc(), &b.enc(), wsigned(&a)) {
-            $r.form("unchecked", || val(unsafe { a.unchecked_sub(b) }));
+            $r.form_unsafe("unchecked", || val(unsafe { a.unchecked_sub(b) }));
         }
     }};
 }
@@ -129,7 +129,7 @@ macro_rules! c02_same {
         $r.form("strict", || val(a.strict_mul(b)));
         $r.form("op", || val(a * b));
         if gen::mul_fits(&a.enc(), &b.enc(), wsigned(&a)) {
-            $r.form("unchecked", || val(unsafe { a.unchecked_mul(b) }));
+            $r.form_unsafe("unchecked", || val(unsafe { a.unchecked_mul(b) }));
         }
     }};
 }
